@@ -202,8 +202,7 @@ pub fn run_sequence(pool: &Pool, sc: &Value) -> Value {
     // optionally: what the second inputs give on their own, BEFORE anything else ran in this process
     // (the replay binary is started once per batch; `also_alone` scenarios are replayed one per process by the harness)
     let alone = if sc["also_alone"] == true { Some(run(pool, &sc["second"])) } else { None };
-    let first = run(pool, &sc["first"]);
-    let _ = first;
+    for _ in 0..sc["repeat_first"].as_u64().unwrap_or(1) { let _ = run(pool, &sc["first"]); }
     let mut second = sc["second"].clone();
     second["delay_verification_ms"] = sc["sleep_ms"].clone();
     let mut after = run(pool, &second);
